@@ -12,6 +12,7 @@ macro_rules! dispatch {
             "C01" => $f::<props::c01::C01>($($arg),*),
             "C02" => $f::<props::c02::C02>($($arg),*),
             "C03" => $f::<props::c03::C03>($($arg),*),
+            "C07" => $f::<props::c07::C07>($($arg),*),
             "C08" => $f::<props::c08::C08>($($arg),*),
             "C10" => $f::<props::c10::C10>($($arg),*),
             "C11" => $f::<props::c11::C11>($($arg),*),
